@@ -74,14 +74,15 @@ struct Case {
 
 fn j<T: serde::Serialize>(r: GDResult<T>) -> GDResult<Value> { r.map(|t| to_json(&t)) }
 
-fn valve_case(e: EngineCfg, which: usize, cuts: Vec<usize>, reorder: bool, dup: bool, tag: &str) -> Case {
+fn valve_case(e: EngineCfg, which: usize, cuts: Vec<usize>, reorder: bool, dup: bool, tag: &str, compressed: bool) -> Case {
     let engine = e.engine();
     let k = cuts.len() + 1;
     let cuts2 = cuts.clone();
     Case {
         label: format!(
-            "valve {e:?} {} in {k} fragments ({tag}) cuts={cuts:?}{}{}",
+            "valve {e:?} {}{} in {k} fragments ({tag}) cuts={cuts:?}{}{}",
             ["info", "players", "rules"][which],
+            if compressed { " (bzip2)" } else { "" },
             if reorder { " all orders" } else { " in order" },
             if dup { " + one duplicate" } else { "" }
         ),
@@ -113,7 +114,7 @@ fn valve_case(e: EngineCfg, which: usize, cuts: Vec<usize>, reorder: bool, dup: 
             } else {
                 rv::Framing::Source {
                     cuts: cuts2.clone(),
-                    compressed: false,
+                    compressed,
                     size_field: true, exact_size: false,
                     id: 0x31,
                 }
@@ -172,7 +173,7 @@ fn build(tier: Tier) -> Vec<Case> {
             let step = if thorough { 1 } else { 4 };
             let mut at = 1;
             while at < len {
-                v.push(valve_case(e, which, vec![at], true, true, "every boundary"));
+                v.push(valve_case(e, which, vec![at], true, true, "every boundary", false));
                 at += step;
             }
             for k in 3 ..= kmax {
@@ -188,12 +189,19 @@ fn build(tier: Tier) -> Vec<Case> {
                 };
                 for cuts in variants {
                     // all k! orders (exhaustive also at k = 6); duplicates on every order for k <= 4, on the in-order delivery above
-                    v.push(valve_case(e, which, cuts.clone(), true, k <= 4, "field edges"));
+                    v.push(valve_case(e, which, cuts.clone(), true, k <= 4, "field edges", false));
                     if k > 4 {
-                        v.push(valve_case(e, which, cuts, false, true, "field edges"));
+                        v.push(valve_case(e, which, cuts, false, true, "field edges", false));
                     }
                 }
             }
+        }
+    }
+    // ---- Valve, bzip2-compressed split replies (the size and checksum travel in fragment 0 only)
+    for which in 1 .. 3 {
+        let len = valve_len(EngineCfg::App440, which);
+        for k in 2 ..= if thorough { 5 } else { 4 } {
+            v.push(valve_case(EngineCfg::App440, which, crate::rsm::even_cuts(len, k), true, true, "even", true));
         }
     }
     // ---- GameSpy 1
